@@ -242,7 +242,21 @@ func explore(r *ev.Run, engine string, scs []Scenario, extra bool, until time.Ti
 		}
 		items = append(items, item{sc: i, leaf: true})
 		for _, rt := range sched.Roots(sc.Bound, res) {
-			items = append(items, item{sc: i, root: rt})
+			if sc.Bound < 3 {
+				items = append(items, item{sc: i, root: rt})
+				continue
+			}
+			// Large subtrees (bound >= 3) are split once more, so that the shards finish evenly:
+			// the execution of the first deviation itself plus one item per second deviation.
+			res1, _, _, err := one(sc, rt)
+			if err != nil || res1.Hung || res1.Diverged != "" || len(res1.Panics) > 0 || res1.Deadlock {
+				items = append(items, item{sc: i, root: rt})
+				continue
+			}
+			items = append(items, item{sc: i, root: rt, leaf: true})
+			for _, rt2 := range sched.RootsFrom(sc.Bound, res1, len(rt)) {
+				items = append(items, item{sc: i, root: rt2})
+			}
 		}
 	}
 	// Largest subtrees first (a deviation at an early step leaves the most steps to deviate
@@ -292,7 +306,7 @@ func explore(r *ev.Run, engine string, scs []Scenario, extra bool, until time.Ti
 			return true
 		}
 		if it.leaf {
-			res, what, out, err := one(sc, nil)
+			res, what, out, err := one(sc, it.root)
 			if err == nil {
 				visit(res, what, out)
 			}
